@@ -19,6 +19,20 @@ struct Failure { sig: String, desc: String, case: String }
 
 /// Runs one case on a fresh engine; returns per-op outputs, or a panic message.
 fn run_case(case: &Case) -> Result<Vec<OpOut>, String> {
+    let (outs, crash) = run_case2(case);
+    match crash { None => Ok(outs), Some(m) => Err(m) }
+}
+
+/// outputs of the ops that completed, and what stopped the case (panic / hang) if anything did
+fn run_case2(case: &Case) -> (Vec<OpOut>, Option<String>) {
+    let partial: std::sync::Arc<std::sync::Mutex<Vec<OpOut>>> = Default::default();
+    let p2 = partial.clone();
+    let r = run_case_inner(case, p2);
+    let outs = partial.lock().unwrap().clone();
+    match r { Ok(()) => (outs, None), Err(m) => (outs, Some(m)) }
+}
+
+fn run_case_inner(case: &Case, partial: std::sync::Arc<std::sync::Mutex<Vec<OpOut>>>) -> Result<(), String> {
     let rt = tokio::runtime::Builder::new_current_thread().enable_all().build().unwrap();
     let case2 = case.clone();
     let r = std::panic::catch_unwind(std::panic::AssertUnwindSafe(|| {
@@ -28,15 +42,14 @@ fn run_case(case: &Case) -> Result<Vec<OpOut>, String> {
             let mut engine = Engine::<MemCfg>::new_with(Plugin::default(), InMemoryStorageEngineFactory, SeededStableHasherBuilder::new(0)).await.unwrap();
             register_all(&mut engine, &sh);
             let engine = Arc::new(engine);
-            let mut outs = vec![];
             for op in &case2.ops {
                 let fut = run_op(&engine, &sh, op);
                 match tokio::time::timeout(std::time::Duration::from_secs(3), fut).await {
-                    Ok(o) => outs.push(o),
+                    Ok(o) => partial.lock().unwrap().push(o),
                     Err(_) => return Err(format!("hang at op {}", op.render())),
                 }
             }
-            Ok(outs)
+            Ok(())
         })
     }));
     drop(rt);
@@ -62,7 +75,11 @@ fn judge2(case: &Case, outs: &[OpOut], mode: &str) -> (Vec<(String, String)>, Ve
     let mut exec_this_epoch: BTreeSet<u32> = BTreeSet::new();
     let mut last_result: BTreeMap<u32, i64> = BTreeMap::new();
     let mut changed_exec_this_epoch: BTreeSet<u32> = BTreeSet::new();
-    for (i, (op, out)) in case.ops.iter().zip(outs).enumerate() {
+    let crash_out = OpOut { vals: vec!["crash".into(); 8], execs: vec![] };
+    for (i, op) in case.ops.iter().enumerate() {
+        let crashed = i >= outs.len();
+        if i > outs.len() { break; }
+        let out = if crashed { &crash_out } else { &outs[i] };
         match op {
             Op::Session(ws) => {
                 exec_this_epoch.clear();
@@ -190,6 +207,7 @@ fn main() {
     let mut distinct: BTreeSet<u64> = BTreeSet::new();
     let (mut evals, mut ops_total, mut execs_total, mut with_fw, mut with_pj, mut with_unord, mut with_ext) = (0u64, 0u64, 0u64, 0u64, 0u64, 0u64, 0u64);
     let mut samples: Vec<String> = vec![];
+    let mut crashes = 0u64;
     let mut exp_lines: Vec<String> = vec![];
     let mut cases: Vec<Case> = vec![];
     if let Some(rp) = &a.replay {
@@ -219,31 +237,33 @@ fn main() {
         if case.program.has_unordered() { with_unord += 1; }
         if samples.len() < 3 && nontrivial(case) { samples.push(text.clone()); }
         let with_execs = !case.program.has_unordered();
-        match run_case(case) {
-            Ok(outs) => {
-                let mut lines = text.lines();
-                out.line(lines.next().unwrap(), "case");
-                for _ in 0..case.program.nodes.len() { out.line(lines.next().unwrap(), "ok"); }
-                for (op, o) in case.ops.iter().zip(&outs) { out.line(&op.render(), &render_out(o, with_execs)); ops_total += 1; execs_total += o.execs.len() as u64; }
-                let (fs, expect) = judge2(case, &outs, &mode);
-                exp_lines.push("case".into());
-                for _ in 0..case.program.nodes.len() { exp_lines.push("ok".into()); }
-                exp_lines.extend(expect);
-                if let Some((sig, _)) = fs.first() {
-                    if failures.iter().filter(|f| f.sig == *sig).count() < 2 {
-                        let small = shrink(case, &mode, sig);
-                        let so = run_case(&small).unwrap_or_default();
-                        let d = judge(&small, &so, &mode).into_iter().find(|f| f.0 == *sig).map(|f| f.1).unwrap_or_default();
-                        failures.push(Failure { sig: sig.clone(), desc: d, case: small.render() });
-                    } else { failures.push(Failure { sig: sig.clone(), desc: fs[0].1.clone(), case: text.clone() }); }
-                }
-            }
-            Err(msg) => {
+        {
+            let (outs, crash) = run_case2(case);
+            let mut lines = text.lines();
+            out.line(lines.next().unwrap(), "case");
+            for _ in 0..case.program.nodes.len() { out.line(lines.next().unwrap(), "ok"); }
+            for (op, o) in case.ops.iter().zip(&outs) { out.line(&op.render(), &render_out(o, with_execs)); ops_total += 1; execs_total += o.execs.len() as u64; }
+            if let Some(msg) = &crash {
                 let kind = if msg.starts_with("hang") { "hang" } else { "panic" };
-                failures.push(Failure { sig: format!("crash:{kind}"), desc: msg.chars().take(300).collect(), case: text.clone() });
-                // keep the streams aligned: emit the case with a crash marker the model will not produce
-                out.line(&format!("case 0"), "case");
-                exp_lines.push("case".into());
+                out.line(&case.ops[outs.len()].render(), &format!("crash {kind}"));
+                crashes += 1;
+            }
+            let (fs, mut expect) = judge2(case, &outs, &mode);
+            exp_lines.push("case".into());
+            for _ in 0..case.program.nodes.len() { exp_lines.push("ok".into()); }
+            expect.truncate(outs.len() + if crash.is_some() { 1 } else { 0 });
+            exp_lines.extend(expect);
+            if let Some(msg) = &crash {
+                let kind = if msg.starts_with("hang") { "hang" } else { "panic" };
+                let mut small = case.clone(); small.ops.truncate(outs.len() + 1);
+                failures.push(Failure { sig: format!("crash:{kind}"), desc: msg.chars().take(300).collect(), case: small.render() });
+            } else if let Some((sig, _)) = fs.first() {
+                if failures.iter().filter(|f| f.sig == *sig).count() < 2 {
+                    let small = shrink(case, &mode, sig);
+                    let so = run_case(&small).unwrap_or_default();
+                    let d = judge(&small, &so, &mode).into_iter().find(|f| f.0 == *sig).map(|f| f.1).unwrap_or_default();
+                    failures.push(Failure { sig: sig.clone(), desc: d, case: small.render() });
+                } else { failures.push(Failure { sig: sig.clone(), desc: fs[0].1.clone(), case: text.clone() }); }
             }
         }
     }
@@ -251,7 +271,7 @@ fn main() {
     rep.push_str(&format!("\"evaluations\":{evals},\"distinct_nontrivial\":{},", distinct.len()));
     rep.push_str(&format!("\"rule\":{},", jstr(&format!("mode={mode}: random ranked programs (3..12 keys; kinds input/normal/firewall/projection/external; conditional and unordered reads{}) x histories of sessions (set: change / same value / back to an earlier value; refresh; world) and query rounds (old roots, fresh roots, inner nodes); non-trivial = a session after the first round changes an input that had a value (or refreshes); distinct by hash of the case text", if mode == "cyclic" { "; forward references create cycles" } else { "" }))));
     rep.push_str(&format!("\"samples\":[{}],", samples.iter().map(|s| jstr(s)).collect::<Vec<_>>().join(",")));
-    rep.push_str(&format!("\"distribution\":{{\"ops\":{ops_total},\"executor_invocations\":{execs_total},\"cases_with_firewall\":{with_fw},\"cases_with_projection\":{with_pj},\"cases_with_external\":{with_ext},\"cases_with_unordered_group\":{with_unord}}},"));
+    rep.push_str(&format!("\"distribution\":{{\"ops\":{ops_total},\"executor_invocations\":{execs_total},\"cases_with_firewall\":{with_fw},\"cases_with_projection\":{with_pj},\"cases_with_external\":{with_ext},\"cases_with_unordered_group\":{with_unord},\"cases_crashed\":{crashes}}},"));
     rep.push_str(&format!("\"oracle_failures\":[{}]", failures.iter().map(|f| format!("{{\"sig\":{},\"desc\":{},\"case\":{}}}", jstr(&f.sig), jstr(&f.desc), jstr(&f.case))).collect::<Vec<_>>().join(",")));
     rep.push('}');
     std::fs::write(format!("{}/expect.txt", a.out), exp_lines.join("\n") + "\n").unwrap();
